@@ -33,6 +33,16 @@ Proof.
   destruct WM as (k0 & p0 & ->); [congruence|]. destruct (WV E) as [(k1 & v1 & X)|(k1 & v1 & X)]; discriminate.
 Qed.
 
+(* a step that marks a node is the RMark step of a LoadAndDelete / Delete, which knows that the node is fully linked *)
+Lemma step_mark_linked s t i : Inv s -> InvR s -> valid (hp s) i -> mkd (hp s) i = false ->
+  mkd (hp (step true s t)) i = true -> lkd (hp s) i = true.
+Proof.
+  intros [L O P T] [F SF] V M0 M1.
+  destruct (step_cases true s t) as [E|(th & h' & th' & Hth & Tr & E)]; rewrite E in M1; [congruence|].
+  cbn [hp] in M1. destruct (trans_writes _ _ _ _ _ _ i V Tr) as (_ & WM & _).
+  destruct WM as (k0 & p0 & Ep); [congruence|]. pose proof (F t th Hth) as Ft. rewrite Ep in Ft. exact Ft.
+Qed.
+
 Section Trace.
 Variable progs : list (list opk).
 Variable sched : list nat.
@@ -164,6 +174,14 @@ Proof.
       * destruct (Nat.lt_ge_cases (m + d) (length sched)) as [Ls|Ls].
         -- rewrite (st_S _ Ls) in *. apply step_mark_value; auto. apply st_inv.
         -- unfold st in *. rewrite gr_ge in * by exact Ls. congruence.
+Qed.
+
+Lemma st_mark_linked m x : valid (hp (st m)) x -> mkd (hp (st m)) x = false -> mkd (hp (st (Datatypes.S m))) x = true ->
+  lkd (hp (st m)) x = true.
+Proof.
+  intros V M0 M1. destruct (Nat.lt_ge_cases m (length sched)) as [Ls|Ls].
+  - rewrite (st_S _ Ls) in M1. eapply step_mark_linked; eauto using st_inv, st_invR.
+  - unfold st in *. rewrite gr_ge in M1 by exact Ls. congruence.
 Qed.
 
 (* once marked, the value of a node is frozen *)
